@@ -28,6 +28,49 @@ mod capx {
         unsafe fn deallocate(&self, ptr: NonNull<u8>, layout: Layout) { unsafe { Global.deallocate(ptr, layout) } }
     }
 
+    // BumpString / MutBumpString driven through the vector interface of the histories (kinds bs / ms, byte elements):
+    // a string is its vector of bytes, the capacity bookkeeping is the same code (`generic_reserve` of the inner vector);
+    // the element pushed is always the ASCII letter 'Z' (= 0x5A, the fill byte of the histories)
+    pub struct SW<S>(pub S);
+    impl<S: StrOps> SW<S> {
+        pub fn len(&self) -> usize { self.0.s_len() }
+        pub fn capacity(&self) -> usize { self.0.s_capacity() }
+        pub fn as_ptr(&self) -> *const u8 { self.0.s_ptr() }
+        pub fn try_reserve(&mut self, n: usize) -> Result<(), AllocError> { self.0.s_try_reserve(n) }
+        pub fn try_reserve_exact(&mut self, n: usize) -> Result<(), AllocError> { self.0.s_try_reserve_exact(n) }
+        pub fn reserve(&mut self, n: usize) { self.0.s_reserve(n) }
+        pub fn reserve_exact(&mut self, n: usize) { self.0.s_reserve_exact(n) }
+        pub fn try_push<T>(&mut self, _x: T) -> Result<(), AllocError> { self.0.s_try_push() }
+        pub fn try_extend_from_slice_copy<T>(&mut self, xs: &[T]) -> Result<(), AllocError> { self.0.s_try_push_str(&"Z".repeat(xs.len())) }
+        pub fn pop(&mut self) { self.0.s_pop() }
+        pub fn truncate(&mut self, k: usize) { self.0.s_truncate(k) }
+        pub fn shrink_to_fit(&mut self) { self.0.s_shrink_to_fit() }
+        pub fn shrink_to(&mut self, m: usize) { self.0.s_shrink_to(m) }
+    }
+    pub trait StrOps {
+        fn s_len(&self) -> usize; fn s_capacity(&self) -> usize; fn s_ptr(&self) -> *const u8;
+        fn s_try_reserve(&mut self, n: usize) -> Result<(), AllocError>; fn s_try_reserve_exact(&mut self, n: usize) -> Result<(), AllocError>;
+        fn s_reserve(&mut self, n: usize); fn s_reserve_exact(&mut self, n: usize);
+        fn s_try_push(&mut self) -> Result<(), AllocError>; fn s_try_push_str(&mut self, s: &str) -> Result<(), AllocError>;
+        fn s_pop(&mut self); fn s_truncate(&mut self, k: usize); fn s_shrink_to_fit(&mut self); fn s_shrink_to(&mut self, m: usize);
+    }
+    macro_rules! str_ops {
+        ($ty:ty, [$($g:tt)*], $shrink:expr) => {
+            impl<$($g)*> StrOps for $ty {
+                fn s_len(&self) -> usize { self.len() } fn s_capacity(&self) -> usize { self.capacity() } fn s_ptr(&self) -> *const u8 { self.as_ptr() }
+                fn s_try_reserve(&mut self, n: usize) -> Result<(), AllocError> { self.try_reserve(n) }
+                fn s_try_reserve_exact(&mut self, n: usize) -> Result<(), AllocError> { self.try_reserve_exact(n) }
+                fn s_reserve(&mut self, n: usize) { self.reserve(n) } fn s_reserve_exact(&mut self, n: usize) { self.reserve_exact(n) }
+                fn s_try_push(&mut self) -> Result<(), AllocError> { self.try_push('Z') }
+                fn s_try_push_str(&mut self, s: &str) -> Result<(), AllocError> { self.try_push_str(s) }
+                fn s_pop(&mut self) { self.pop(); } fn s_truncate(&mut self, k: usize) { if k <= self.len() { self.truncate(k) } }
+                fn s_shrink_to_fit(&mut self) { $shrink(self, None) } fn s_shrink_to(&mut self, m: usize) { $shrink(self, Some(m)) }
+            }
+        };
+    }
+    str_ops!(bump_scope::BumpString<&'b B>, ['b, B: bump_scope::traits::BumpAllocatorTyped], |s: &mut bump_scope::BumpString<&'b B>, m: Option<usize>| match m { None => s.shrink_to_fit(), Some(m) => s.shrink_to(m) });
+    str_ops!(bump_scope::MutBumpString<&'b mut B>, ['b, B: bump_scope::traits::MutBumpAllocatorTyped], |_s: &mut bump_scope::MutBumpString<&'b mut B>, _m: Option<usize>| ());
+
     #[derive(Clone, Copy, Debug)]
     pub enum VOp { Reserve(usize), ReserveExact(usize), Push, Extend(usize), Pop, Truncate(usize), ShrinkToFit, ShrinkTo(usize) }
 
@@ -49,7 +92,7 @@ mod capx {
                     _ => VOp::ShrinkTo(r.below(40) as usize),
                 };
                 if fixed && matches!(op, VOp::Reserve(_) | VOp::ReserveExact(_) | VOp::ShrinkToFit | VOp::ShrinkTo(_)) { continue; }
-                if kind >= 2 && matches!(op, VOp::ShrinkToFit | VOp::ShrinkTo(_)) { continue; }
+                if (kind == 2 || kind == 3 || kind == 5) && matches!(op, VOp::ShrinkToFit | VOp::ShrinkTo(_)) { continue; }
                 break op;
             };
             (op, refuse)
@@ -68,7 +111,7 @@ mod capx {
             let rev = kind == 3;
             let mut bump: $bt = Bump::with_size_in($chunk, Moody2);
             let cfg_: u8 = $cfg;
-            let mut line = format!("V {} {} {} {} {} {}", ["bv", "fv", "mv", "rv"][kind as usize], core::mem::size_of::<$t>(), core::mem::align_of::<$t>(), $init, $chunk, $other as u8);
+            let mut line = format!("V {} {} {} {} {} {}", ["bv", "fv", "mv", "rv", "bs", "ms"][kind as usize], core::mem::size_of::<$t>(), core::mem::align_of::<$t>(), $init, $chunk, $other as u8);
             let mut notes: Vec<String> = vec![];
             // element value: every byte 0x5A (all element types here are plain integers / arrays of them)
             let zero: $t = unsafe { let mut m = core::mem::MaybeUninit::<$t>::uninit(); core::ptr::write_bytes(m.as_mut_ptr(), 0x5A, 1); m.assume_init() };
@@ -127,7 +170,23 @@ mod capx {
                     }
                 }};
             }
-            if kind >= 2 {
+            if kind == 4 || kind == 5 {
+                // strings through the vector interface (meaningful for byte elements only; histories use u8)
+                macro_rules! drive_op { ($vv:ident, $op:expr) => {{ match *$op {
+                    VOp::Reserve(n) if n >= usize::MAX - 64 && n % 2 == 1 => { let l = $vv.len(); (std::panic::catch_unwind(std::panic::AssertUnwindSafe(|| $vv.reserve(n))).is_ok(), l) }
+                    VOp::ReserveExact(n) if n >= usize::MAX - 64 && n % 2 == 1 => { let l = $vv.len(); (std::panic::catch_unwind(std::panic::AssertUnwindSafe(|| $vv.reserve_exact(n))).is_ok(), l) }
+                    VOp::Reserve(n) => { let l = $vv.len(); ($vv.try_reserve(n).is_ok(), l) }
+                    VOp::ReserveExact(n) => { let l = $vv.len(); ($vv.try_reserve_exact(n).is_ok(), l) }
+                    VOp::Push => { let l = $vv.len(); ($vv.try_push(zero).is_ok(), l) }
+                    VOp::Extend(n) => { let l = $vv.len(); ($vv.try_extend_from_slice_copy(&vec![zero; n]).is_ok(), l) }
+                    VOp::Pop => { $vv.pop(); (true, $vv.len()) }
+                    VOp::Truncate(k) => { $vv.truncate(k); (true, $vv.len()) }
+                    VOp::ShrinkToFit => { $vv.shrink_to_fit(); (true, $vv.len()) }
+                    VOp::ShrinkTo(m) => { $vv.shrink_to(m); (true, $vv.len()) }
+                } }}; }
+                if kind == 4 { let mut v = SW(bump_scope::BumpString::with_capacity_in($init, &bump)); drive!(v, Some(bump.alloc(0xA5u8).into_raw().as_ptr() as usize)); }
+                else { let mut v = SW(bump_scope::MutBumpString::with_capacity_in($init, &mut bump)); drive!(v, None::<usize>); }
+            } else if kind >= 2 {
                 macro_rules! drive_op { ($vv:ident, $op:expr) => {{ match *$op {
                     // absurd sizes: every second one goes through the PANICKING method inside catch_unwind (a capacity
                     // overflow unwinds; the vector is used again afterwards) — the same failure, the same atomicity
@@ -183,7 +242,7 @@ mod capx {
             Ok(x) => x,
             Err(_) => {
                 let (line, op) = PROGRESS.with(|p| p.borrow().clone());
-                let line = if line.is_empty() { format!("V {} 0 0 {init} {chunk} {}", ["bv", "fv", "mv", "rv"][kind as usize], other as u8) } else { line };
+                let line = if line.is_empty() { format!("V {} 0 0 {init} {chunk} {}", ["bv", "fv", "mv", "rv", "bs", "ms"][kind as usize], other as u8) } else { line };
                 (vec![format!("capacity: the crate panicked in a try_ / non-failing operation ({op}) of this history")], line)
             }
         }
@@ -209,21 +268,21 @@ mod capx {
     /// corrupts memory and the process dies, this line is the failing input
     pub fn input_line(ty: u64, kind: u8, init: usize, ops: &[(VOp, bool)], chunk: usize, other: bool) -> String {
         let (sz, al) = [(1, 1), (4, 4), (8, 8), (24, 1), (1600, 8)][(ty % 5) as usize];
-        let mut l = format!("VB {} {sz} {al} {init} {chunk} {} 0 {}", ["bv", "fv", "mv", "rv"][kind.min(3) as usize], other as u8, ty / 5);
+        let mut l = format!("VB {} {sz} {al} {init} {chunk} {} 0 {}", ["bv", "fv", "mv", "rv", "bs", "ms"][kind.min(5) as usize], other as u8, ty / 5);
         for (op, refuse) in ops { let (nm, arg) = name(op); l.push_str(&format!(";{nm},{arg},{}", *refuse as u8)); }
         l
     }
 
     /// returns (monitor notes, the V line); `announce` receives the input line first
     pub fn cap_history(r: &mut Rng, announce: &mut dyn FnMut(&str)) -> (Vec<String>, String) {
-        let kind: u8 = match r.below(8) { 0 | 1 => 1, 2 | 3 => 2, 4 => 3, _ => 0 };
+        let kind: u8 = match r.below(10) { 0 | 1 => 1, 2 | 3 => 2, 4 => 3, 5 => 4, 6 => 5, _ => 0 };
         let fixed = kind == 1;
         let init = match r.below(4) { 0 => 0usize, 1 => r.range(1, 5) as usize, _ => r.range(1, 24) as usize };
         let init = if fixed && init == 0 { 3 } else { init };
         let ops = gen_ops(r, kind);
         let chunk = match r.below(3) { 0 => 512usize, 1 => 2048, _ => 16384 };
         let other = r.coin(1, 3);
-        let ty = r.below(10);
+        let ty = if kind >= 4 { 5 * r.below(2) } else { r.below(10) };      // strings: byte elements
         announce(&input_line(ty, kind, init, &ops, chunk, other));
         run_history(ty, kind, init, &ops, chunk, other)
     }
@@ -233,7 +292,7 @@ mod capx {
         let mut fields = line.strip_prefix("V ")?.split(';');
         let head: Vec<&str> = fields.next()?.split(' ').collect();
         if head.len() < 6 { return None; }
-        let kind: u8 = match head[0] { "fv" => 1, "mv" => 2, "rv" => 3, _ => 0 };
+        let kind: u8 = match head[0] { "fv" => 1, "mv" => 2, "rv" => 3, "bs" => 4, "ms" => 5, _ => 0 };
         if head[1] == "0" { return zst_replay(kind, fields); }
         let ty = match (head[1], head[2]) { ("1", _) => 0, ("4", _) => 1, ("8", _) => 2, ("24", _) => 3, _ => 4 } + 5 * head.get(7).and_then(|x| x.parse::<u64>().ok()).unwrap_or(0).min(1);
         let init: usize = head[3].parse().ok()?;
@@ -328,7 +387,7 @@ mod capx {
         PROGRESS.with(|p| *p.borrow_mut() = (String::new(), "new".into()));
         let r = std::panic::catch_unwind(std::panic::AssertUnwindSafe(|| {
             let mut bump: Bump<Moody2> = Bump::with_size_in(512, Moody2);
-            let mut line = format!("V {} 0 1 0 512 0", ["bv", "fv", "mv", "rv"][kind as usize]);
+            let mut line = format!("V {} 0 1 0 512 0", ["bv", "fv", "mv", "rv", "bs", "ms"][kind as usize]);
             let mut notes: Vec<String> = vec![];
             match kind {
                 0 => { let mut v: BumpVec<(), &Bump<Moody2>> = BumpVec::new_in(&bump); zst_drive!(v, try_reserve, try_reserve_exact, ops, line, notes); }
@@ -342,7 +401,7 @@ mod capx {
             Ok(x) => x,
             Err(_) => {
                 let (line, op) = PROGRESS.with(|p| p.borrow().clone());
-                (vec![format!("capacity: the crate panicked in a try_ / non-failing operation ({op}) on a vector of zero-sized elements")], if line.is_empty() { format!("V {} 0 1 0 512 0 0", ["bv", "fv", "mv", "rv"][kind as usize]) } else { line })
+                (vec![format!("capacity: the crate panicked in a try_ / non-failing operation ({op}) on a vector of zero-sized elements")], if line.is_empty() { format!("V {} 0 1 0 512 0 0", ["bv", "fv", "mv", "rv", "bs", "ms"][kind as usize]) } else { line })
             }
         }
     }
@@ -350,7 +409,7 @@ mod capx {
     pub fn zst_history(r: &mut Rng, announce: &mut dyn FnMut(&str)) -> (Vec<String>, String) {
         let kind = r.below(4) as u8;
         let ops = gen_zops(r, kind);
-        let mut l = format!("VB {} 0 1 0 512 0 0", ["bv", "fv", "mv", "rv"][kind as usize]);
+        let mut l = format!("VB {} 0 1 0 512 0 0", ["bv", "fv", "mv", "rv", "bs", "ms"][kind as usize]);
         for op in &ops { let (nm, arg) = zname(op); l.push_str(&format!(";{nm},{arg},0")); }
         announce(&l);
         run_zst(kind, &ops)
